@@ -5,7 +5,11 @@ the extracted model on scripted + generated event lists, plus implementation-sid
 (3) system-call trace validation: a helper mode of the harness runs scripted uploads under
 strace, this module parses the trace (fds resolved to paths), compares it with the trace the
 model predicts for the same script, and evaluates the extracted crash monitor (every crash
-point x every loss choice of the observed trace)."""
+point x every loss choice of the observed trace); one script (`wfault`) runs uploads whose
+write(2) is cut short by RLIMIT_FSIZE and is compared with FS/Fault.v (upload_fault);
+(4) write faults: the harness' -mode=wfault (a process of its own, private mount namespace)
+uploads through the real code while write(2) on the temporary file fails partway (EFBIG via
+RLIMIT_FSIZE, ENOSPC via a full tmpfs); monitors mon_wfault_* only."""
 import os, random, re, shutil, subprocess, tempfile
 import checklib as L
 from checks import difflib2 as D
@@ -536,6 +540,7 @@ def trace_stage(res, hexe, mexe, workdir, tr, notes, tier):
             res.violation(p, "strace stage did not run (%s)" % script, no_input=True)
             continue
         tr["scripts"] += 1
+        crash_reported = False    # later operations of a script inherit the damage: one replay per script
         tr["unmodelled_calls"] += ps.unknown
         inp, meta = model_trace_input(lines, ps, raw_ops)
         out, err = run_trace_model(mexe, inp)
@@ -561,7 +566,10 @@ def trace_stage(res, hexe, mexe, workdir, tr, notes, tier):
                 tr["crash_monitor_failures"] += 1
                 if is_candidate:
                     tr["candidate"] = mon
+                elif crash_reported:
+                    pass
                 else:
+                    crash_reported = True
                     p = L.write_replay(PROP, "crash_%s_%d.txt" % (script, idx),
                                        "the crash monitor found a power-loss point of the OBSERVED system-call trace of /repo after which the property fails:\n%s\n%s" % (mon, replay_txt))
                     res.violation(p, "durable_ok false: " + mon[:200])
